@@ -154,9 +154,9 @@ Qed.
 Ltac mstep :=
   cbn -[Z.eqb Z.b2z Nat.ltb firstn nth_error];
   match goal with
-  | H : forall j : nat, ?pl j = false |- context [?pl ?k] => rewrite (H k)
-  | |- context [if ?pl ?k then _ else _] =>
-      match type of pl with nat -> bool => destruct (pl k) eqn:? end
+  | H : forall j : nat, ?pl j = None |- context [?pl ?k] => rewrite (H k)
+  | |- context [match ?pl ?k with Some _ => _ | None => _ end] =>
+      match type of pl with nat -> option Z => destruct (pl k) eqn:? end
   | |- context [negb ?b] => is_var b; destruct b
   | |- context [?b || _] => is_var b; destruct b
   | |- context [if ?b then _ else _] => is_var b; destruct b
@@ -381,7 +381,7 @@ Qed.
 Lemma start_in_streaming fx cap pl s :
   loop_running s = true ->
   run_call fx (CStart cap) pl s =
-  {| r_res := Err E_IN_STREAMING; r_effs := []; r_nops := 0; r_failed := None; r_cam := s |}.
+  {| r_res := Err E_IN_STREAMING; r_effs := []; r_nops := 0; r_atts := []; r_failed := None; r_cam := s |}.
 Proof.
   destruct s as [oc os cx en tl aq lr]. cbn [loop_running]. intros ->. reflexivity.
 Qed.
@@ -389,7 +389,7 @@ Qed.
 Lemma start_without_context cap pl s :
   loop_running s = false -> ctxt s = None ->
   run_call true (CStart cap) pl s =
-  {| r_res := Err E_CTXT_MISSING; r_effs := []; r_nops := 0; r_failed := None; r_cam := s |}.
+  {| r_res := Err E_CTXT_MISSING; r_effs := []; r_nops := 0; r_atts := []; r_failed := None; r_cam := s |}.
 Proof.
   destruct s as [oc os cx en tl aq lr]. cbn [loop_running ctxt]. intros -> ->. reflexivity.
 Qed.
@@ -397,7 +397,7 @@ Qed.
 (* the pinned code enabled the stream on the device before noticing the missing context *)
 Lemma start_without_context_v0 cap s :
   loop_running s = false -> ctxt s = None ->
-  let r := run_call false (CStart cap) (fun _ => false) s in
+  let r := run_call false (CStart cap) (fun _ => None) s in
   r_res r = Err E_CTXT_MISSING /\ r_effs r = [EnableStreaming] /\ stream_enabled (r_cam r) = true.
 Proof.
   destruct s as [oc os cx en tl aq lr]. cbn [loop_running ctxt]. intros -> ->.
@@ -436,7 +436,7 @@ Ltac useG1 G1 :=
        destruct K as (-> & -> & ->)).
 
 Lemma call_G c plc s :
-  G s -> good_call c -> (forall j, plc j = false) -> G (r_cam (run_call true c plc s)).
+  G s -> good_call c -> (forall j, plc j = None) -> G (r_cam (run_call true c plc s)).
 Proof.
   unfold G. open_call c s;
     cbn [ctxt loop_running stream_enabled tl_locked acquiring good_call x_parses x_tl x_start x_stop];
@@ -445,7 +445,7 @@ Proof.
 Qed.
 
 Lemma close_G plc s :
-  G s -> (forall j, plc j = false) ->
+  G s -> (forall j, plc j = None) ->
   r_res (run_call true CClose plc s) = Ok (-1) /\ clean (r_cam (run_call true CClose plc s)).
 Proof.
   unfold G, clean. open_state s;
@@ -455,7 +455,7 @@ Proof.
 Qed.
 
 Lemma run_G pl cs : forall i s,
-  (forall i j, pl i j = false) -> G s -> Forall good_call cs ->
+  (forall i j, pl i j = None) -> G s -> Forall good_call cs ->
   G (final_from s (run_from true pl i s cs)).
 Proof.
   induction cs as [|c cs IH]; intros i s Hpl Hs Hg; cbn [run_from].
@@ -478,7 +478,7 @@ Lemma final_snoc rs r : final (rs ++ [r]) = r_cam r.
 Proof. unfold final, final_from. rewrite map_app. cbn [map]. apply last_last. Qed.
 
 Theorem close_clean pl cs :
-  (forall i j, pl i j = false) -> Forall good_call cs ->
+  (forall i j, pl i j = None) -> Forall good_call cs ->
   clean (final (run true pl (cs ++ [CClose]))) /\
   exists rs r, run true pl (cs ++ [CClose]) = rs ++ [r] /\ r_res r = Ok (-1).
 Proof.
@@ -521,16 +521,18 @@ Ltac mstep0 :=
 Ltac fstep Hj Hlt :=
   cbn -[Z.eqb Z.b2z firstn nth_error];
   match goal with
-  | |- context [if ?pl ?k then _ else _] => first [rewrite Hj | rewrite (Hlt k) by lia]
+  | |- context [match ?pl ?k with Some _ => _ | None => _ end] =>
+      match type of pl with nat -> option Z => first [rewrite Hj | rewrite (Hlt k) by lia] end
   end.
 
-Lemma failure_stops fx c plc s j :
-  first_fail plc j ->
-  (j < r_nops (run_call fx c (fun _ => false) s))%nat ->
-  exists e, nth_error (r_effs (run_call fx c (fun _ => false) s)) j = Some e /\
-    r_failed (run_call fx c plc s) = Some e /\
-    r_res (run_call fx c plc s) = Err (err_of e) /\
-    r_effs (run_call fx c plc s) = firstn j (r_effs (run_call fx c (fun _ => false) s)) /\
+Lemma failure_stops fx c plc s j cls :
+  first_fail plc j cls ->
+  (j < r_nops (run_call fx c (fun _ => None) s))%nat ->
+  exists e, nth_error (r_effs (run_call fx c (fun _ => None) s)) j = Some e /\
+    r_failed (run_call fx c plc s) = Some (e, cls) /\
+    r_res (run_call fx c plc s) = Err (err_of e cls) /\
+    r_effs (run_call fx c plc s) = firstn j (r_effs (run_call fx c (fun _ => None) s)) /\
+    r_atts (run_call fx c plc s) = firstn j (r_effs (run_call fx c (fun _ => None) s)) ++ [e] /\
     r_nops (run_call fx c plc s) = S j.
 Proof.
   intros [Hj Hlt]. open_call c s; repeat mstep0;
@@ -541,8 +543,8 @@ Qed.
 
 (* a planned failure at an operation the call does not reach changes nothing *)
 Lemma unreached_failure fx c plc s :
-  (forall k, (k < r_nops (run_call fx c (fun _ => false) s))%nat -> plc k = false) ->
-  run_call fx c plc s = run_call fx c (fun _ => false) s.
+  (forall k, (k < r_nops (run_call fx c (fun _ => None) s))%nat -> plc k = None) ->
+  run_call fx c plc s = run_call fx c (fun _ => None) s.
 Proof.
   open_call c s; repeat mstep0; cbn -[Z.eqb Z.b2z Nat.lt lt]; intros H;
     repeat (rewrite H by lia; cbn -[Z.eqb Z.b2z]); reflexivity.
@@ -550,13 +552,29 @@ Qed.
 
 (* whatever the plan: a call in which an operation failed returns that operation's error, and
    the failed operation is the last one attempted *)
-Lemma failed_res fx c plc s e :
-  r_failed (run_call fx c plc s) = Some e ->
-  r_res (run_call fx c plc s) = Err (err_of e) /\
-  exists j, plc j = true /\ r_nops (run_call fx c plc s) = S j.
+Lemma failed_res fx c plc s e cls :
+  r_failed (run_call fx c plc s) = Some (e, cls) ->
+  r_res (run_call fx c plc s) = Err (err_of e cls) /\
+  exists j, plc j = Some cls /\ r_nops (run_call fx c plc s) = S j.
 Proof.
-  open_call c s; crunch; intros Hf; try discriminate Hf; injection Hf as <-;
+  open_call c s; crunch; intros Hf; try discriminate Hf; injection Hf as <- <-;
     (split; [reflexivity|eexists; split; [eassumption|reflexivity]]).
+Qed.
+
+(* The device log of a call: every access is attempted at most once; the log is exactly the accesses
+   that succeeded (the call's effects on the device / stream handle) followed, when one failed, by that
+   single failed attempt, which is therefore the last thing the call did to the device. *)
+Definition failed_att (r : callres) : list effect :=
+  match r_failed r with Some (e, _) => [e] | None => [] end.
+
+Lemma attempts_call fx c plc s :
+  NoDup (r_atts (run_call fx c plc s)) /\
+  r_atts (run_call fx c plc s) =
+    filter is_access (r_effs (run_call fx c plc s)) ++ failed_att (run_call fx c plc s) /\
+  length (r_atts (run_call fx c plc s)) = r_nops (run_call fx c plc s).
+Proof.
+  unfold failed_att. open_call c s; crunch;
+    (split; [repeat constructor; cbn; intuition discriminate|split; reflexivity]).
 Qed.
 
 (* the only panic: start_streaming(0), as documented *)
@@ -568,7 +586,7 @@ Qed.
 
 Lemma start_cap0 fx plc s c0 :
   loop_running s = false -> ctxt s = Some c0 -> n_tl c0 = true -> n_start c0 = true ->
-  (forall j, plc j = false) ->
+  (forall j, plc j = None) ->
   r_res (run_call fx (CStart 0) plc s) = Panic /\
   r_effs (run_call fx (CStart 0) plc s) = [EnableStreaming; SetTLParamsLocked true; AcqStart] /\
   loop_running (r_cam (run_call fx (CStart 0) plc s)) = false.
@@ -589,13 +607,21 @@ Proof.
   - destruct H as [<-|H]; [eexists _, _, _; reflexivity|]. eapply IH. exact H.
 Qed.
 
-Theorem failure_session fx pl cs r e :
-  In r (run fx pl cs) -> r_failed r = Some e ->
-  r_res r = Err (err_of e) /\ exists k j, pl k j = true /\ r_nops r = S j.
+Theorem failure_session fx pl cs r e cls :
+  In r (run fx pl cs) -> r_failed r = Some (e, cls) ->
+  r_res r = Err (err_of e cls) /\ exists k j, pl k j = Some cls /\ r_nops r = S j.
 Proof.
   intros Hin Hf. destruct (run_in _ _ _ _ _ _ Hin) as (c & k & s' & ->).
-  destruct (failed_res _ _ _ _ _ Hf) as [Hr (j & Hj & Hn)].
+  destruct (failed_res _ _ _ _ _ _ Hf) as [Hr (j & Hj & Hn)].
   split; [exact Hr|]. exists k, j. split; assumption.
+Qed.
+
+Theorem attempts_session fx pl cs r :
+  In r (run fx pl cs) ->
+  NoDup (r_atts r) /\ r_atts r = filter is_access (r_effs r) ++ failed_att r /\
+  length (r_atts r) = r_nops r.
+Proof.
+  intros Hin. destruct (run_in _ _ _ _ _ _ Hin) as (c & k & s' & ->). apply attempts_call.
 Qed.
 
 Theorem panic_session fx pl cs r :
@@ -624,8 +650,8 @@ Proof. vm_compute. repeat split. Qed.
 
 (* a failing AcquisitionStart write: error returned, the loop is not started, the flag is false *)
 Example failure_example :
-  let rs := run true (plan_of [(2, 2)%nat]) [COpen; CLoad xml_good; CStart 3] in
-  map r_res rs = [Ok (-1); Ok (-1); Err E_GENAPI_DEVICE] /\
+  let rs := run true (plan_of [(2%nat, 2%nat, 1)]) [COpen; CLoad xml_good; CStart 3] in
+  map r_res rs = [Ok (-1); Ok (-1); Err (E_GENAPI_DEVICE + 1)] /\
   trace_of rs = [CtrlOpen; StrmOpen; GenApiFetch; LoadCtxt true true true;
                  EnableStreaming; SetTLParamsLocked true] /\
   loop_running (final rs) = false.
